@@ -249,8 +249,8 @@ def run(F, rep):
         for loop, c, ivar, uses in indexed_child_accesses(cf):
             n_x += 1
             rep.check(uses, 'C11.X1', '%s::clone|%s' % (cls, render(c)[:50]), cf.where(c), '%s::clone reads a child with `%s`, which does not use the loop index %s' % (cls, render(c)[:60], ivar), 'indexed by ' + ivar)
-    if n_x < 6:
-        raise AnalysisBroken('C11.X1: only %d indexed child reads in the clone functions (8 confirmed)' % n_x)
+    if n_x < 3:
+        raise AnalysisBroken('C11.X1: only %d indexed child reads in the clone functions (8 on the pinned tree; a loop rewritten as a range-for has no index to get wrong)' % n_x)
 
     rep.rule('C11.D3', 'a data member of the copy that holds an entity (units of a variable, variables of a reset, import source) is given an entity by clone(): the call on the copy that writes such a member takes a shared_ptr argument, '
                        'not a name from which an empty stand-in would be created')
